@@ -16,9 +16,112 @@ EXPLANATION = B.MIXED + (
     "'no store before a raise' - expanding, combining or reordering before a late check keeps the physical state, which is all the property asks.")
 
 
+def kraus_check_obligation(rep):
+    """photon_weave._math.ops.kraus_identity_check is the single completeness guard behind every apply_kraus: the quantity it compares with
+    the identity must be sum_K K^dagger K itself (complex), for a generic pair of symbolic 2x2 complex operators (sympy)."""
+    import ast
+    import sympy as sp
+    from vf.common import Obligation
+    from vf.pyvc import dataflow as D
+    from vf.pyvc.listexec import Outside
+    rel, q = "photon_weave/_math/ops.py", "kraus_identity_check"
+    fq = f"{rel}::{q}"
+    try:
+        tree, src = D.parse(rel)
+        fn = dict(D.functions(tree))[q]
+    except Exception as ex:
+        rep.undecided.append(f"{fq}: {ex}")
+        return
+    fsrc = ast.get_source_segment(src, fn) or ""
+    rep.add_function(fq, rel, fsrc, "P (symbolic evaluation of the compared quantity, sympy)")
+
+    def cm(name):
+        return sp.Matrix(2, 2, lambda i, j: sp.Symbol(f"{name}r{i}{j}", real=True) + sp.I * sp.Symbol(f"{name}i{i}{j}", real=True))
+    K1, K2 = cm("k"), cm("l")
+    ops_name = fn.args.args[0].arg
+    env = {}
+
+    def ev(e):
+        if isinstance(e, ast.Name):
+            if e.id in env:
+                return env[e.id]
+            raise Outside(f"name {e.id}")
+        if isinstance(e, ast.Constant) and isinstance(e.value, (int, float)):
+            return sp.nsimplify(e.value)
+        if isinstance(e, ast.Attribute):
+            if e.attr == "T":
+                return ev(e.value).T
+            if e.attr == "real":
+                return ev(e.value).applyfunc(sp.re)
+            if e.attr == "H":
+                return ev(e.value).H
+        if isinstance(e, ast.BinOp):
+            l, r = ev(e.left), ev(e.right)
+            if isinstance(e.op, (ast.MatMult, ast.Mult)):
+                return l * r
+            if isinstance(e.op, ast.Add):
+                return l + r
+            if isinstance(e.op, ast.Sub):
+                return l - r
+        if isinstance(e, ast.Call):
+            f = ast.unparse(e.func)
+            if f in ("jnp.matmul", "jnp.dot", "np.matmul", "np.dot") and len(e.args) == 2:
+                return ev(e.args[0]) * ev(e.args[1])
+            if f in ("jnp.conjugate", "jnp.conj", "np.conj", "np.conjugate") and len(e.args) == 1:
+                return ev(e.args[0]).conjugate()
+            if f in ("jnp.real", "np.real") and len(e.args) == 1:
+                return ev(e.args[0]).applyfunc(sp.re)
+            if f in ("jnp.abs", "np.abs") and len(e.args) == 1:
+                return ev(e.args[0]).applyfunc(sp.Abs)
+            if isinstance(e.func, ast.Attribute) and e.func.attr in ("conj", "conjugate") and not e.args:
+                return ev(e.func.value).conjugate()
+            if f in ("jnp.eye", "np.eye", "jnp.identity", "np.identity"):
+                return sp.eye(2)
+            if f == "sum" and len(e.args) in (1, 2) and isinstance(e.args[0], (ast.GeneratorExp, ast.ListComp)) and len(e.args[0].generators) == 1:
+                g = e.args[0].generators[0]
+                if isinstance(g.target, ast.Name) and isinstance(g.iter, ast.Name) and g.iter.id == ops_name and not g.ifs:
+                    tot = sp.zeros(2, 2)
+                    for K in (K1, K2):
+                        env[g.target.id] = K
+                        tot = tot + ev(e.args[0].elt)
+                    env.pop(g.target.id, None)
+                    return tot
+        raise Outside(ast.unparse(e)[:60])
+
+    try:
+        for st in fn.body:
+            if isinstance(st, ast.Expr) and isinstance(st.value, ast.Constant):
+                continue
+            if isinstance(st, ast.Assign) and len(st.targets) == 1 and isinstance(st.targets[0], ast.Name):
+                try:
+                    env[st.targets[0].id] = ev(st.value)
+                except Outside:
+                    env.pop(st.targets[0].id, None)
+        cmp_calls = [nd for nd in ast.walk(fn) if isinstance(nd, ast.Call) and ast.unparse(nd.func) in ("jnp.allclose", "np.allclose", "jnp.isclose", "np.isclose") and len(nd.args) >= 2]
+        if len(cmp_calls) != 1:
+            raise Outside(f"{len(cmp_calls)} allclose comparisons")
+        a, b = ev(cmp_calls[0].args[0]), ev(cmp_calls[0].args[1])
+    except Outside as o:
+        rep.not_covered(fq, fsrc, f"compared quantity: {o}")
+        return
+    want = K1.H * K1 + K2.H * K2
+    d1 = sp.simplify((a - b) - (want - sp.eye(2)))
+    d2 = sp.simplify((b - a) - (want - sp.eye(2)))
+    ok = d1 == sp.zeros(2, 2) or d2 == sp.zeros(2, 2)
+    oid = f"{fq}::ensures:compares-the-complex-sum-of-K^dagger-K-with-the-identity"
+    rep.add_ob(Obligation(oid, fq, "ensures", "sympy", "discharged" if ok else "failed",
+                          detail="" if ok else f"the compared quantity is `{ast.unparse(cmp_calls[0].args[0])[:60]}` (as defined in the body), not sum_K K^dagger K"))
+    if not ok:
+        rep.violation(f"{fq}: the completeness guard does not compare sum_K K^dagger K with the identity (e.g. only its real part): Kraus sets with an "
+                      "anti-Hermitian... imaginary deviation are accepted", key=f"P:{oid}",
+                      replay={"kind": "obligation", "function": fq, "failed_obligations": [oid],
+                              "counter_model": "K = [[1, 0.6i], [0, 0.8]]: K^dagger K = I + i[[0, 0.6], [-0.6, 0]]"}, no_input=True)
+
+
 def run(rep, tier):
     kernels.oracle_self_check(rep)
     operation_contracts(rep)
+    kraus_check_obligation(rep)
     kernels.run_scope(rep, B.STATE_FILES + ["photon_weave/operation/operation.py", "photon_weave/_math/ops.py"])
     B.run_b(rep, morecells.invalid_cells(tier, common.seed()), ["C17"], tier=tier)
     B.run_b(rep, morecells.after_measure_cells(tier, common.seed()), ["C05"], explore=False, tier=tier)
